@@ -675,6 +675,9 @@ pub fn run_c13(ctx: &Ctx) -> (&'static str, Map<String, Value>) {
     // end-to-end binding through the leaf-index fields of real signatures (Engine A oracle C13:leaf-index-e2e)
     let cfgs = vec![
         crate::props_life::cfg(ctx, Hid::S16, vec![crate::refmodel::p(4, 2), crate::refmodel::p(4, 5)], 0, None, 0, vec![]),
+        // both entry points in every state of whole lifetimes (the in-memory key must continue, and end, like the bytes)
+        crate::props_life::cfg(ctx, Hid::S24, vec![crate::refmodel::p(4, 2), crate::refmodel::p(4, 2)], 0, None, 2, vec![crate::props_life::sign_act(0, lib_api::Entry::Key, lib_api::Cb::Accept, crate::lifecycle::AuxMode::None)]),
+        crate::props_life::cfg(ctx, Hid::K16, vec![crate::refmodel::p(4, 5)], 0, None, 1, vec![crate::props_life::sign_act(0, lib_api::Entry::Key, lib_api::Cb::Accept, crate::lifecycle::AuxMode::None)]),
         crate::props_life::cfg(ctx, Hid::S16, vec![crate::refmodel::p(4, 5), crate::refmodel::p(4, 2), crate::refmodel::p(8, 2)], 0, None, 0, vec![]),
         crate::props_life::cfg(ctx, Hid::S32, vec![crate::refmodel::p(8, 2), crate::refmodel::p(8, 2), crate::refmodel::p(8, 2), crate::refmodel::p(8, 2)], 0, None, 1, vec![crate::lifecycle::Act::Damaged { kind: crate::lifecycle::Dmg::CounterAtLifetime, entry: lib_api::Entry::Bytes }, crate::lifecycle::Act::Damaged { kind: crate::lifecycle::Dmg::CounterMax, entry: lib_api::Entry::Bytes }]),
     ];
